@@ -25,9 +25,9 @@ def run(ctx):
         ctx.guard("C16", "tail-c", lambda: tail.compress_expand(ctx, prog))
         ctx.guard("C16", "tail-n", lambda: tail.normalize_in_place(ctx, prog))
         ctx.guard("C16", "full-eq", lambda: eqord.full_eq(ctx, prog))
+        ctx.guard("C16", "traits", lambda: vis.trait_census(ctx, prog, scope='core::cmp::|core::hash::Hash'))
         ctx.guard("C16", "summaries", lambda: summary.check(ctx, prog, 'core::cmp::|core::hash::Hash|::cmp_by_block_size|block_size::cmp', floor=2))
         ctx.guard("C16", "path summaries", lambda: summary.check_paths(ctx, prog, 'core::cmp::|core::hash::Hash|::cmp_by_block_size|block_size::cmp', floor=2))
         if c in ("dbg", "unsafe_dbg", "strict_dbg"):
             ctx.guard("C16", "beliefs", lambda: beliefs.census(ctx, prog, beliefs.SCOPES["C16"][0], floor=beliefs.SCOPES["C16"][1]))
-        ctx.guard("C16", "traits", lambda: vis.trait_census(ctx, prog, scope='core::cmp::|core::hash::Hash'))
     return ctx.finish(EXPL, ["core tuple/array/slice comparison and Hasher::write* have their documented meaning"])
